@@ -128,6 +128,7 @@ func (workerPoolSelf *DefaultWorkerPool) trySpawn() {
 		expectedWorkerCount = workerPoolSelf.workerCount + 1
 	}
 	workerPoolSelf.lock.RUnlock()
+	verifAt("pool.trySpawn.computed")
 
 	if workerPoolSelf.workerCount < expectedWorkerCount {
 		for i := workerPoolSelf.workerCount; i < expectedWorkerCount; i++ {
@@ -151,6 +152,7 @@ func (workerPoolSelf *DefaultWorkerPool) spawnLoop() {
 	}()
 
 	for range workerPoolSelf.spawnWorkerCh {
+		verifAt("pool.spawn.wake")
 		if workerPoolSelf.IsClosed() {
 			break
 		}
@@ -188,6 +190,7 @@ func (workerPoolSelf *DefaultWorkerPool) generateWorkerWithMaximum(maximum int) 
 					handler(panic)
 				}
 			}
+			verifAt("pool.worker.exit")
 
 			workerPoolSelf.lock.Lock()
 			workerPoolSelf.workerCount--
@@ -200,15 +203,18 @@ func (workerPoolSelf *DefaultWorkerPool) generateWorkerWithMaximum(maximum int) 
 		// Do Jobs
 	loopLabel:
 		for {
+			verifAt("pool.worker.loop")
 			workerPoolSelf.lastAliveTime = time.Now()
 
 			if workerPoolSelf.IsClosed() {
 				return
 			}
+			verifAt("pool.worker.checked")
 
 			select {
 			case job := <-workerPoolSelf.jobQueue.GetChannel():
 				if job != nil {
+					verifAt("pool.worker.gotJob")
 					workerPoolSelf.lock.Lock()
 					isBusy = true
 					workerPoolSelf.workerBusy++
@@ -222,6 +228,7 @@ func (workerPoolSelf *DefaultWorkerPool) generateWorkerWithMaximum(maximum int) 
 					workerPoolSelf.lock.Unlock()
 				}
 			case <-time.After(workerPoolSelf.workerExpiryDuration):
+				verifAt("pool.worker.expired")
 				workerPoolSelf.lock.RLock()
 				workerCount := workerPoolSelf.workerCount
 				if workerCount > workerPoolSelf.workerSizeStandBy ||
@@ -319,6 +326,7 @@ func (workerPoolSelf *DefaultWorkerPool) Close() {
 		return
 	}
 	workerPoolSelf.isClosed.Set(true)
+	verifAt("pool.Close.flagged")
 
 	if workerPoolSelf.isJobQueueClosedWhenClose {
 		workerPoolSelf.jobQueue.Close()
@@ -330,9 +338,11 @@ func (workerPoolSelf *DefaultWorkerPool) Schedule(fn func()) error {
 	if workerPoolSelf.IsClosed() {
 		return ErrWorkerPoolIsClosed
 	}
+	verifAt("pool.Schedule.checked")
 	defer workerPoolSelf.spawnWorkerCh.Offer(1)
 
 	err := workerPoolSelf.jobQueue.Offer(fn)
+	verifAt("pool.Schedule.offered")
 	if err == fpgo.ErrQueueIsFull {
 		return ErrWorkerPoolJobQueueIsFull
 	}
